@@ -28,6 +28,8 @@ PLACEMENT = [
     ('two_node_discounted_daily', dict(T=3, freq='d', wacc=True), None),
     ('two_node_names_not_in_alphabetical_order', dict(T=3, node_names=('power', 'gas')), None),
     ('two_node_names_reversed_split', dict(T=4, freq='12h', node_names=('N2', 'N1')), 'd'),
+    ('two_node_name_contained_in_the_other', dict(T=3, node_names=('node_1', 'node_10')), None),
+    ('two_node_name_contains_the_other', dict(T=3, node_names=('hub_north', 'hub')), None),
     ('two_node_window_gap', dict(T=4, win_t=(1, 3)), None),
     ('windows_gap_two_nodes', dict(T=5, wins=((0, 2), (1, 2), (3, 5), (4, 5)), two_nodes=True), None),
     ('multicommodity', dict(T=3), None),
@@ -38,7 +40,7 @@ PLACEMENT = [
     ('split_first_asset_starts_inside_interval', dict(T=4, wins=((1, 4), (0, 4), (0, 3)), two_nodes=True), '2h'),
     ('split_first_asset_late_second_interval', dict(T=6, wins=((4, 6), (0, 6)), two_nodes=True), '3h'),
 ]
-SHAPE_OF = dict(two_node_names_not_in_alphabetical_order='two_node', two_node_names_reversed_split='two_node', two_node_discounted_daily='two_node', split_first_asset_starts_inside_interval='windows', split_first_asset_late_second_interval='windows', two_node_window_gap='two_node', windows_gap_two_nodes='windows', split_two_node='two_node', split_unequal_intervals='two_node',
+SHAPE_OF = dict(two_node_name_contained_in_the_other='two_node', two_node_name_contains_the_other='two_node', two_node_names_not_in_alphabetical_order='two_node', two_node_names_reversed_split='two_node', two_node_discounted_daily='two_node', split_first_asset_starts_inside_interval='windows', split_first_asset_late_second_interval='windows', two_node_window_gap='two_node', windows_gap_two_nodes='windows', split_two_node='two_node', split_unequal_intervals='two_node',
                 late_second_node='late_node')
 INSTANCES = ['two_node', 'contract_storage', 'multicommodity', 'late_node', 'uncoupled', 'coarse',
              'two_node@big', 'scaled@big', 'contract_storage@small', 'orderbook', 'two_node_discounted', 'ext_transport']     # @big / @small: prices of the order 1e5 / 1e-4 (other currencies / units)
